@@ -81,8 +81,23 @@ def run(sid, props):
     return results
 
 
+def matrix(ids):
+    """verify each change and run its property's quick check against it; record both in meta.json"""
+    for sid in ids:
+        d = os.path.join(SEEDED, sid)
+        meta = json.load(open(os.path.join(d, "meta.json")))
+        res = verify(sid)
+        caught = run(sid, meta.get("checks", [meta["property"]]))
+        meta["confirmed"] = dict(res, how="tools/seeded.py verify: scratch worktree under /tmp, cargo test --workspace (95 tests) with the change, "
+                                          "demo_test.rs with and without it")
+        meta["detected_by"] = {p: dict(exit=v["exit"], violations=v["violations"], first=v["first"], detail=v["detail"][:1]) for p, v in caught.items()}
+        json.dump(meta, open(os.path.join(d, "meta.json"), "w"), indent=1)
+
+
 if __name__ == "__main__":
-    if sys.argv[1] == "verify":
+    if sys.argv[1] == "matrix":
+        matrix(sys.argv[2:] or sorted(os.listdir(SEEDED)))
+    elif sys.argv[1] == "verify":
         verify(sys.argv[2])
     elif sys.argv[1] == "run":
         run(sys.argv[2], sys.argv[3:])
